@@ -22,6 +22,8 @@ func main() {
 	verif := flag.String("verif", "/verif", "verif dir")
 	debug := flag.String("debug", "", "roots|effects|sum:<func>")
 	variantIdx := flag.Int("variant", -1, "internal: run self-test variant i of -prop and print the verdict")
+	patch := flag.String("patch", "", "development: analyse the tree with this unified diff applied in memory (overlay)")
+	harness := flag.String("harness", "", "development: name of the generated harness directory under -verif")
 	flag.Parse()
 	if *variantIdx >= 0 {
 		runVariant(*repo, *verif, *prop, *variantIdx)
@@ -32,7 +34,16 @@ func main() {
 		seed, _ = strconv.Atoi(s)
 	}
 
-	p, err := load.Load(load.Options{Repo: *repo, VerifDir: *verif})
+	var overlay map[string][]byte
+	if *patch != "" {
+		ov, err := applyUnifiedDiff(*repo, *patch)
+		if err != nil {
+			fmt.Fprintln(os.Stderr, "patch:", err)
+			os.Exit(2)
+		}
+		overlay = ov
+	}
+	p, err := load.Load(load.Options{Repo: *repo, VerifDir: *verif, Overlay: overlay, HarnessDir: *harness})
 	if err != nil {
 		failAll(*prop, *tier, *verif, seed, "cannot load /repo: "+err.Error())
 		os.Exit(1)
